@@ -172,7 +172,11 @@ pub fn drive(seed: u64, n: usize, out: &mut Out) -> Result<(), String> {
                         let pto = util::i(o, "pto") as u64;
                         s2 = Some(Sut { q: Some(QueryFacade::new(util::b(o, "pred"), util::i(o, "par") as usize, util::i(o, "nr") as usize, Duration::from_millis(pto * 1000), id(0), pairs(&o["cands"]))), now: 0, pto });
                     } else {
-                        let r = s2.as_mut().unwrap().apply(o);
+                        // (a panic of the code under test is data: the recorded run reports it)
+                        let r = match util::guarded(|| s2.as_mut().unwrap().apply(o)) {
+                            Ok(r) => r,
+                            Err(_) => break,
+                        };
                         if std::ptr::eq(o, ops.last().unwrap()) && r[0] == "contact" {
                             contacted.push(r[1].as_i64().unwrap());
                         }
